@@ -315,7 +315,7 @@ floating_point_number = (
 plus, minus, mult, div = map(pp.Literal, "+-*/")
 
 
-def _parse_arithmetic(tokens: pp.ParseResults) -> float:
+def _parse_arithmetic(string: str, location: int, tokens: pp.ParseResults) -> float:
     # tokens[0] is the flat list: operand (operator operand)*, all operators of the same precedence level
     group = tokens[0]
     value: float = group[0]
@@ -323,6 +323,8 @@ def _parse_arithmetic(tokens: pp.ParseResults) -> float:
         if operator == "*":
             value *= operand
         elif operator == "/":
+            if operand == 0:
+                raise pp.ParseFatalException(string, location, "division by zero in a constant expression")
             value /= operand
         elif operator == "+":
             value += operand
